@@ -50,9 +50,19 @@ def local_defs(func: ast.AST, track_mutation: bool = True) -> Dict[str, List[ast
                 if isinstance(t, ast.Name):
                     out.setdefault(t.id, []).append(n.value)
                 elif isinstance(t, (ast.Tuple, ast.List)):
-                    for e in ast.walk(t):
-                        if isinstance(e, ast.Name):
-                            out.setdefault(e.id, []).append(None)
+                    flat = all(isinstance(e, ast.Name) for e in t.elts)
+                    if flat and isinstance(n.value, (ast.Tuple, ast.List)) and len(n.value.elts) == len(t.elts):
+                        for e, v in zip(t.elts, n.value.elts):           # a, b = x, y
+                            out.setdefault(e.id, []).append(v)
+                    elif flat and not isinstance(n.value, (ast.Tuple, ast.List)):
+                        for i, e in enumerate(t.elts):                    # a, b = parts   ->  a is parts[0], b is parts[1]
+                            sub = ast.Subscript(value=n.value, slice=ast.Constant(value=i), ctx=ast.Load())
+                            sub._unpacked_from = (n, len(t.elts))          # type: ignore[attr-defined]
+                            out.setdefault(e.id, []).append(sub)
+                    else:
+                        for e in ast.walk(t):
+                            if isinstance(e, ast.Name):
+                                out.setdefault(e.id, []).append(None)
         elif isinstance(n, ast.AnnAssign) and isinstance(n.target, ast.Name) and n.value is not None:
             out.setdefault(n.target.id, []).append(n.value)
         elif isinstance(n, ast.AugAssign) and isinstance(n.target, ast.Name):
@@ -358,11 +368,18 @@ def run_sections(ctx, sections):
     """sections: [(name, fn(ctx, S))]; each runs inside ``ctx.section(name)`` (when the engine offers it)."""
     S = State()
     for name, fn in sections:
-        if hasattr(ctx, "section"):
-            with ctx.section(name):
+        try:
+            if hasattr(ctx, "section"):
+                with ctx.section(name):
+                    fn(ctx, S)
+            else:
                 fn(ctx, S)
-        else:
-            fn(ctx, S)
+        except AnalysisError:
+            raise
+        except Exception as e:  # noqa: BLE001 - an analyser slip in one group must not mask the verdicts of the others
+            if not hasattr(ctx, "errors"):
+                raise
+            ctx.errors.append(f"[{name}] analyser slip: {type(e).__name__}: {e}")
     return S
 
 
@@ -409,3 +426,1076 @@ def body_always_entered(ctx, rel: str, quals: Iterable[str], rule: str, modprefi
         problems = bad + (["defined %d times" % len(real)] if len(real) > 1 else []) + ["rebound: " + r for r in rebound]
         ctx.check(not problems, rule, where,
                   f"{name} can return without executing its body ({'; '.join(problems)}): {why}")
+
+
+# =====================================================================================================
+# Normalising pre-pass: the rules read a module in which private helpers are expanded at their call
+# sites, loops over constant tuples are unrolled and helper definitions that were expanded everywhere
+# are removed.  Nothing is executed; the original /repo text is untouched.
+# =====================================================================================================
+
+class _NoInline(Exception):
+    pass
+
+
+def _terminates(stmts) -> bool:
+    if not stmts:
+        return False
+    last = stmts[-1]
+    if isinstance(last, (ast.Return, ast.Raise, ast.Continue, ast.Break)):
+        return True
+    if isinstance(last, ast.If):
+        return bool(last.orelse) and _terminates(last.body) and _terminates(last.orelse)
+    if isinstance(last, ast.Try) and not last.finalbody:
+        return (_terminates(last.orelse) if last.orelse else _terminates(last.body)) and all(_terminates(h.body) for h in last.handlers)
+    return False
+
+
+_TMP_COUNTER = [0]
+
+
+def _has_return(node) -> bool:
+    return any(isinstance(x, ast.Return) for x in walk_local(node))
+
+
+def _structure_returns(stmts, on_return):
+    """Helper body -> statements without ``return``: ``on_return(value)`` yields what replaces ``return value``; code that follows a
+    compound statement which may return is moved into the branches that fall through (continuation copying)."""
+    out = []
+    for i, st in enumerate(stmts):
+        if isinstance(st, ast.Return):
+            out.extend(on_return(st.value))
+            return out
+        if isinstance(st, ast.If) and _has_return(st):
+            rest = stmts[i + 1:]
+            body = _structure_returns(list(st.body) + ([] if _terminates(st.body) else clone(rest)), on_return)
+            orelse = _structure_returns(list(st.orelse) + ([] if (st.orelse and _terminates(st.orelse)) else clone(rest)), on_return)
+            out.append(ast.If(test=st.test, body=body or [ast.Pass()], orelse=orelse))
+            return out
+        if isinstance(st, ast.Try) and _has_return(st) and not st.finalbody:
+            rest = stmts[i + 1:]
+            if any(_has_return(b) for b in st.body[:-1]) or (st.body and not isinstance(st.body[-1], ast.Return) and _has_return(st.body[-1])):
+                raise _NoInline("return in the middle of a try body")
+            body_returns = bool(st.body) and isinstance(st.body[-1], ast.Return)
+            if body_returns:
+                # `try: ...; return v` == `try: ... else: return v` as far as the handlers' coverage of `...` goes (v must not raise: simple values only)
+                v = st.body[-1].value
+                if v is not None and not isinstance(v, (ast.Constant, ast.Name, ast.Attribute)):
+                    # `try: ...; return E` with E computed: E stays under the handlers, its value is returned from the else branch
+                    _TMP_COUNTER[0] += 1
+                    tmp = f"_tryret{_TMP_COUNTER[0]}"
+                    body = list(st.body[:-1]) + [ast.Assign(targets=[ast.Name(id=tmp, ctx=ast.Store())], value=v)]
+                    orelse_src = [ast.Return(value=ast.Name(id=tmp, ctx=ast.Load()))]
+                else:
+                    body = list(st.body[:-1]) or [ast.Pass()]
+                    orelse_src = [st.body[-1]]
+            else:
+                body = list(st.body)
+                orelse_src = list(st.orelse) + ([] if (st.orelse and _terminates(st.orelse)) else clone(rest))
+            handlers = []
+            for h in st.handlers:
+                hb = _structure_returns(list(h.body) + ([] if _terminates(h.body) else clone(rest)), on_return)
+                handlers.append(ast.ExceptHandler(type=h.type, name=h.name, body=hb or [ast.Pass()]))
+            orelse = _structure_returns(orelse_src, on_return)
+            out.append(ast.Try(body=body, handlers=handlers, orelse=orelse, finalbody=[]))
+            return out
+        if isinstance(st, ast.Try) and st.finalbody and _has_return(st):
+            if any(_has_return(x) for x in st.finalbody) or st.handlers or st.orelse:
+                raise _NoInline("return inside try/finally with handlers")
+            # try: <A>; return v  finally: <F>   ==   try: <A> finally: <F>; <on_return(v)>   (v simple)
+            if not (st.body and isinstance(st.body[-1], ast.Return)) or any(_has_return(b) for b in st.body[:-1]):
+                raise _NoInline("return in the middle of try/finally")
+            v = st.body[-1].value
+            if v is not None and not isinstance(v, (ast.Constant, ast.Name, ast.Attribute)):
+                raise _NoInline("try/finally returns a computed value")
+            out.append(ast.Try(body=list(st.body[:-1]) or [ast.Pass()], handlers=[], orelse=[], finalbody=st.finalbody))
+            out.extend(on_return(v))
+            return out
+        if isinstance(st, (ast.With, ast.AsyncWith)) and _has_return(st):
+            if not (st.body and isinstance(st.body[-1], ast.Return)) or any(_has_return(b) for b in st.body[:-1]):
+                raise _NoInline("return in the middle of a with block")
+            v = st.body[-1].value
+            if v is not None and not isinstance(v, (ast.Constant, ast.Name, ast.Attribute)):
+                raise _NoInline("with block returns a computed value")
+            out.append(type(st)(items=st.items, body=list(st.body[:-1]) or [ast.Pass()]))
+            out.extend(on_return(v))
+            return out
+        if _has_return(st):
+            raise _NoInline("return inside a loop")
+        out.append(st)
+    return out
+
+
+def _as_expression(stmts):
+    """if/return-only body -> one expression (nested conditional expressions)."""
+    stmts = [s for s in stmts if not (isinstance(s, ast.Expr) and isinstance(s.value, ast.Constant)) and not isinstance(s, ast.Pass)]
+    if not stmts:
+        return ast.Constant(None)
+    st = stmts[0]
+    if isinstance(st, ast.Return):
+        return st.value if st.value is not None else ast.Constant(None)
+    if isinstance(st, ast.If):
+        if _terminates(st.body) and not st.orelse:
+            return ast.IfExp(test=st.test, body=_as_expression(st.body), orelse=_as_expression(stmts[1:]))
+        if st.orelse and _terminates(st.body) and _terminates(st.orelse):
+            return ast.IfExp(test=st.test, body=_as_expression(st.body), orelse=_as_expression(st.orelse))
+    raise _NoInline("helper body is not an if/return expression")
+
+
+def _simple_expr(e) -> bool:
+    while isinstance(e, ast.Attribute):
+        e = e.value
+    return isinstance(e, (ast.Name, ast.Constant))
+
+
+class _Rename(ast.NodeTransformer):
+    def __init__(self, mapping, rename):
+        self.mapping, self.rename = mapping, rename
+
+    def visit_Name(self, node):
+        if node.id in self.mapping and isinstance(node.ctx, ast.Load):
+            return clone(self.mapping[node.id])
+        if node.id in self.rename:
+            return ast.Name(id=self.rename[node.id], ctx=node.ctx)
+        return node
+
+    def visit_arg(self, node):
+        return node
+
+
+class Normaliser:
+    """``Normaliser(mod, known)``: ``known`` = names of functions the rules look up themselves (never expanded)."""
+
+    def __init__(self, mod, known: Iterable[str], depth: int = 4, scope: Optional[Iterable[str]] = None):
+        """``scope``: qualified names ("Class", "Class.method", "function") whose bodies are normalised (default: the whole module)."""
+        self.mod, self.known, self.depth = mod, set(known), depth
+        self.scope = set(scope) if scope is not None else None
+        self.count = 0
+        self.inlined: Dict[str, int] = {}
+        self.refused: Dict[str, str] = {}
+        self.methods: Dict[str, List[Tuple[ast.ClassDef, ast.FunctionDef]]] = {}
+        for c in ast.walk(mod.tree):
+            if isinstance(c, ast.ClassDef):
+                for st in c.body:
+                    if isinstance(st, ast.FunctionDef):
+                        self.methods.setdefault(st.name, []).append((c, st))
+        self.functions = {st.name: st for st in mod.tree.body if isinstance(st, ast.FunctionDef)}
+
+    # ---- which calls are expanded ---------------------------------------------------------------
+    def _helper_name_ok(self, name):
+        return name.startswith("_") and not name.startswith("__") and name not in self.known
+
+    def callee(self, call):
+        """(helper def, receiver expr or None, 'method'|'static'|'function') for a call of an expandable private helper."""
+        if not isinstance(call, ast.Call):
+            return None
+        f = call.func
+        if isinstance(f, ast.Attribute) and self._helper_name_ok(f.attr) and len(self.methods.get(f.attr, [])) == 1 and _simple_expr(f.value):
+            cls, h = self.methods[f.attr][0]
+            decos = [(dotted(d) or src(d)).split(".")[-1] for d in h.decorator_list]
+            recv_is_class = isinstance(f.value, ast.Name) and f.value.id == cls.name
+            if decos == ["staticmethod"]:
+                return h, None, "static"
+            if decos:
+                return None
+            if recv_is_class:
+                return h, None, "unbound"
+            return h, f.value, "method"
+        if isinstance(f, ast.Name) and self._helper_name_ok(f.id) and f.id in self.functions and not self.functions[f.id].decorator_list:
+            return self.functions[f.id], None, "function"
+        return None
+
+    def _bind(self, h, recv, kind, call):
+        a = h.args
+        if a.vararg is not None and (a.kwarg or a.kwonlyargs):
+            raise _NoInline("variadic")
+        if a.kwarg or a.kwonlyargs or any(k.arg is None for k in call.keywords) or any(isinstance(x, ast.Starred) for x in call.args):
+            raise _NoInline("variadic call")
+        if any(isinstance(x, (ast.Yield, ast.YieldFrom, ast.Await, ast.Global, ast.Nonlocal)) for st in h.body for x in ast.walk(st)):
+            raise _NoInline("generator / global")
+        ps = [x.arg for x in list(a.posonlyargs) + list(a.args)]
+        defaults = dict(zip(ps[len(ps) - len(a.defaults):], a.defaults))
+        actual = {}
+        args = list(call.args)
+        if kind == "method":
+            if not ps:
+                raise _NoInline("method without self")
+            actual[ps[0]] = recv
+            rest = ps[1:]
+        else:
+            rest = ps
+        star = None
+        if len(args) > len(rest):
+            if a.vararg is None:
+                raise _NoInline("too many arguments")
+            star = args[len(rest):]
+            args = args[:len(rest)]
+        elif a.vararg is not None:
+            star = []
+        for pn, av in zip(rest, args):
+            actual[pn] = av
+        for k in call.keywords:
+            actual[k.arg] = k.value
+        for pn in ps:
+            if pn not in actual:
+                if pn in defaults:
+                    actual[pn] = defaults[pn]
+                else:
+                    raise _NoInline("missing argument")
+        if star is not None:
+            actual[a.vararg.arg] = ast.Tuple(elts=list(star), ctx=ast.Load())
+        return actual
+
+    def _body(self, call):
+        h, recv, kind = self.callee(call)
+        actual = self._bind(h, recv, kind, call)
+        self.count += 1
+        tag = f"__i{self.count}"
+        body = [s for s in h.body if not (isinstance(s, ast.Expr) and isinstance(s.value, ast.Constant) and isinstance(s.value.value, str))]
+        body = clone(body)
+        assigned = {x.id for st in body for x in ast.walk(st) if isinstance(x, ast.Name) and isinstance(x.ctx, (ast.Store, ast.Del))}
+        assigned |= {x.name for st in body for x in ast.walk(st) if isinstance(x, (ast.FunctionDef, ast.AsyncFunctionDef))}
+        pre, mapping = [], {}
+        for pn, av in actual.items():
+            simple = _simple_expr(av) or isinstance(av, ast.Lambda) or (isinstance(av, ast.Tuple) and all(_simple_expr(e) or isinstance(e, ast.Constant) for e in av.elts))
+            if pn in assigned or not simple:
+                nm = pn + tag
+                pre.append(ast.Assign(targets=[ast.Name(id=nm, ctx=ast.Store())], value=clone(av)))
+                mapping[pn] = ast.Name(id=nm, ctx=ast.Load())
+            else:
+                mapping[pn] = av
+        rename = {n: n + tag for n in assigned if n not in mapping}
+        sub = _Rename(mapping, rename)
+        body = [sub.visit(st) for st in body]
+        for st in body:
+            for x in ast.walk(st):
+                if isinstance(x, (ast.FunctionDef, ast.AsyncFunctionDef)) and x.name in rename:
+                    x.name = rename[x.name]
+        self.inlined[h.name] = self.inlined.get(h.name, 0) + 1
+        return pre, body
+
+    # ---- statements --------------------------------------------------------------------------------
+    def _fix(self, nodes, like):
+        for n in nodes:
+            for x in ast.walk(n):
+                if not hasattr(x, "lineno"):
+                    ast.copy_location(x, like)
+            ast.fix_missing_locations(n)
+        return nodes
+
+    def stmts(self, stmts, level=0):
+        out = []
+        for st in stmts:
+            out.extend(self.stmt(st, level))
+        return out
+
+    def _specialise_if(self, st, call, negated, v):
+        """the `if <call>:` statement with the call replaced by the returned value v (constant-folded)."""
+        if isinstance(v, ast.Constant) or v is None:
+            truth = bool(v.value) if v is not None else False
+            if negated:
+                truth = not truth
+            return clone(st.body) if truth else clone(st.orelse)
+        test = v if not negated else ast.UnaryOp(op=ast.Not(), operand=v)
+        return [ast.If(test=test, body=clone(st.body), orelse=clone(st.orelse))]
+
+    def _hoist_lambdas(self, st):
+        """``x.do(lambda: self._helper(a))`` -> ``def _lamN(): return self._helper(a)`` + ``x.do(_lamN)`` so that the helper can be expanded."""
+        if not isinstance(st, (ast.Expr, ast.Assign, ast.Return, ast.AnnAssign)):
+            return None
+        lams = []
+
+        def find(n, top=True):
+            for ch in ast.iter_child_nodes(n):
+                if isinstance(ch, ast.Lambda):
+                    b = ch.body
+                    if self.callee(b) and not self._single_expr(b) and not (ch.args.defaults or ch.args.vararg or ch.args.kwarg or ch.args.kwonlyargs):
+                        lams.append(ch)
+                    continue
+                if isinstance(ch, (ast.FunctionDef, ast.AsyncFunctionDef, ast.ClassDef)):
+                    continue
+                find(ch, False)
+        find(st)
+        if not lams:
+            return None
+        defs_ = []
+        names = {}
+        for lam in lams:
+            self.count += 1
+            nm = f"_lam{self.count}"
+            names[id(lam)] = nm
+            defs_.append(ast.FunctionDef(name=nm, args=lam.args, body=[ast.Return(value=lam.body)], decorator_list=[], returns=None, type_comment=None, type_params=[]))
+
+        class R(ast.NodeTransformer):
+            def visit_Lambda(s_, node):
+                if id(node) in names:
+                    return ast.Name(id=names[id(node)], ctx=ast.Load())
+                return node
+        st2 = R().visit(st)
+        self._fix(defs_ + [st2], st)
+        return defs_ + [st2]
+
+    def stmt(self, st, level):
+        if isinstance(st, (ast.FunctionDef, ast.AsyncFunctionDef)):
+            st.body = self.stmts(st.body, 0)
+            return [st]
+        if isinstance(st, ast.ClassDef):
+            return [st]
+        hoisted = self._hoist_lambdas(st) if level < self.depth else None
+        if hoisted is not None:
+            return self.stmts(hoisted, level)
+        if level < self.depth:
+            try:
+                new = self._expand_stmt(st, level)
+                if new is not None:
+                    return new
+            except _NoInline as e:
+                c = next((x for x in walk_local(st) if self.callee(x)), None)
+                if c is not None:
+                    self.refused[self.callee(c)[0].name] = str(e)
+        for fld in ("body", "orelse", "finalbody"):
+            v = getattr(st, fld, None)
+            if isinstance(v, list) and v and isinstance(v[0], ast.stmt):
+                setattr(st, fld, self.stmts(v, level))
+        for h in getattr(st, "handlers", []) or []:
+            h.body = self.stmts(h.body, level)
+        if level < self.depth:
+            self._exprs(st, level)
+        return [st]
+
+    def _expand_stmt(self, st, level):
+        call, mode, neg = None, None, False
+        if isinstance(st, ast.Expr) and self.callee(st.value):
+            call, mode = st.value, "expr"
+        elif isinstance(st, ast.Return) and st.value is not None and self.callee(st.value):
+            call, mode = st.value, "return"
+        elif isinstance(st, ast.Assign) and len(st.targets) == 1 and self.callee(st.value):
+            call, mode = st.value, "assign"
+        elif isinstance(st, ast.AnnAssign) and st.value is not None and self.callee(st.value):
+            call, mode = st.value, "annassign"
+        elif isinstance(st, ast.If):
+            t = st.test
+            if isinstance(t, ast.UnaryOp) and isinstance(t.op, ast.Not) and self.callee(t.operand):
+                call, mode, neg = t.operand, "if", True
+            elif self.callee(t):
+                call, mode = t, "if"
+        if call is None:
+            # helper calls nested in the expressions of a simple statement: bind them to temporaries first (left-to-right)
+            if isinstance(st, (ast.Expr, ast.Assign, ast.AnnAssign, ast.AugAssign, ast.Return, ast.If, ast.Raise)) :
+                roots = [st.test] if isinstance(st, ast.If) else [x for x in ast.iter_child_nodes(st) if isinstance(x, ast.expr)]
+                nested = [x for r in roots for x in walk_local(r) if self.callee(x) and not isinstance(x, ast.Lambda)]
+                nested = [x for x in nested if not self._single_expr(x)]
+                if nested:
+                    x = nested[0]
+                    if any(isinstance(p, ast.Lambda) for p in self._ancestors_in(st, x)):
+                        return None
+                    self.count += 1
+                    tmp = f"_ret{self.count}"
+                    pre = ast.Assign(targets=[ast.Name(id=tmp, ctx=ast.Store())], value=x)
+
+                    class R(ast.NodeTransformer):
+                        def visit_Call(self_, node):
+                            if node is x:
+                                return ast.Name(id=tmp, ctx=ast.Load())
+                            return self_.generic_visit(node)
+                    st2 = R().visit(st)
+                    self._fix([pre, st2], st)
+                    return self.stmts([pre, st2], level)
+            return None
+        pre, body = self._body(call)
+        if mode == "expr":
+            new = _structure_returns(body, lambda v: [ast.Expr(v)] if v is not None and not _simple_expr(v) else [])
+        elif mode == "return":
+            new = body if _terminates(body) else body + [ast.Return(value=ast.Constant(None))]
+        elif mode in ("assign", "annassign"):
+            tgt = st.targets[0] if mode == "assign" else st.target
+            new = _structure_returns(body + ([] if _terminates(body) else [ast.Return(value=ast.Constant(None))]),
+                                     lambda v: [ast.Assign(targets=[clone(tgt)], value=v if v is not None else ast.Constant(None))])
+        else:
+            new = _structure_returns(body + ([] if _terminates(body) else [ast.Return(value=ast.Constant(None))]),
+                                     lambda v: self._specialise_if(st, call, neg, v))
+        new = pre + (new or [])
+        new = new or [ast.Pass()]
+        self._fix(new, st)
+        return self.stmts(new, level + 1)
+
+    def _ancestors_in(self, root, node):
+        path = []
+
+        def rec(n, acc):
+            if n is node:
+                path.extend(acc)
+                return True
+            for ch in ast.iter_child_nodes(n):
+                if rec(ch, acc + [n]):
+                    return True
+            return False
+        rec(root, [])
+        return path
+
+    def _single_expr(self, call):
+        try:
+            h, recv, kind = self.callee(call)
+            body = [s for s in h.body if not (isinstance(s, ast.Expr) and isinstance(s.value, ast.Constant))]
+            _as_expression(body)
+            actual = self._bind(h, recv, kind, call)
+            return all(_simple_expr(v) or isinstance(v, (ast.Lambda, ast.Tuple)) for v in actual.values())
+        except _NoInline:
+            return False
+
+    def _exprs(self, st, level):
+        outer = self
+
+        class T(ast.NodeTransformer):
+            def visit_Call(self, node):
+                self.generic_visit(node)
+                if not outer.callee(node) or not outer._single_expr(node):
+                    return node
+                h, recv, kind = outer.callee(node)
+                actual = outer._bind(h, recv, kind, node)
+                body = [s for s in clone(h.body) if not (isinstance(s, ast.Expr) and isinstance(s.value, ast.Constant))]
+                e = _as_expression(body)
+                e = _Rename(actual, {}).visit(e)
+                outer.inlined[h.name] = outer.inlined.get(h.name, 0) + 1
+                return ast.copy_location(e, node)
+
+            def visit_FunctionDef(self, node):
+                return node
+
+            visit_AsyncFunctionDef = visit_ClassDef = visit_FunctionDef
+
+        for fld, val in list(ast.iter_fields(st)):
+            if isinstance(val, ast.expr):
+                setattr(st, fld, T().visit(val))
+            elif isinstance(val, list) and val and isinstance(val[0], ast.expr):
+                setattr(st, fld, [T().visit(v) for v in val])
+            elif isinstance(val, list) and val and isinstance(val[0], ast.withitem):
+                for it in val:
+                    it.context_expr = T().visit(it.context_expr)
+        ast.fix_missing_locations(st)
+
+    # ---- loops over constant tuples ------------------------------------------------------------------
+    @staticmethod
+    def unroll(stmts):
+        out = []
+        for st in stmts:
+            for fld in ("body", "orelse", "finalbody"):
+                v = getattr(st, fld, None)
+                if isinstance(v, list) and v and isinstance(v[0], ast.stmt) and not isinstance(st, ast.ClassDef):
+                    setattr(st, fld, Normaliser.unroll(v))
+            for h in getattr(st, "handlers", []) or []:
+                h.body = Normaliser.unroll(h.body)
+            if isinstance(st, ast.For) and isinstance(st.iter, (ast.Tuple, ast.List)) and not st.orelse and len(st.iter.elts) <= 8 \
+                    and not any(isinstance(x, (ast.Break, ast.Continue)) for b in st.body for x in walk_local(b)):
+                names = [st.target] if isinstance(st.target, ast.Name) else (list(st.target.elts) if isinstance(st.target, (ast.Tuple, ast.List)) else None)
+                ok = names is not None and all(isinstance(n, ast.Name) for n in names)
+                rows = []
+                for e in st.iter.elts:
+                    if isinstance(st.target, ast.Name):
+                        rows.append([e])
+                    elif isinstance(e, (ast.Tuple, ast.List)) and names is not None and len(e.elts) == len(names):
+                        rows.append(list(e.elts))
+                    else:
+                        ok = False
+                rebound = {x.id for b in st.body for x in ast.walk(b) if isinstance(x, ast.Name) and isinstance(x.ctx, ast.Store)}
+                if ok and not (rebound & {n.id for n in names}):
+                    for row in rows:
+                        sub = _Rename({n.id: v for n, v in zip(names, row)}, {})
+                        body = [sub.visit(clone(b)) for b in st.body]
+                        for b in body:
+                            ast.copy_location(b, st)
+                            ast.fix_missing_locations(b)
+                        out.extend(body)
+                    continue
+            out.append(st)
+        return out
+
+    # ---- single-assignment pure temporaries --------------------------------------------------------------
+    # calls that neither have effects nor raise on the values they are given here (int()/float() can raise: moving them would move a failure point)
+    _PURE_CALLS = {"str", "len", "bool", "isinstance", "os.getpid", "repr"}
+
+    @classmethod
+    def _pure(cls, e, frozen_names, func_attr_writes):
+        for x in ast.walk(e):
+            if isinstance(x, ast.Call):
+                if (dotted(x.func) or "") not in cls._PURE_CALLS or x.keywords:
+                    return False
+            elif isinstance(x, (ast.Subscript, ast.Lambda, ast.Await, ast.Yield, ast.YieldFrom, ast.NamedExpr, ast.Starred, ast.ListComp, ast.SetComp,
+                                ast.DictComp, ast.GeneratorExp, ast.List, ast.Dict, ast.Set, ast.JoinedStr)):
+                return False
+            elif isinstance(x, ast.Attribute) and x.attr in func_attr_writes:
+                return False
+            elif isinstance(x, ast.Name) and x.id not in frozen_names:
+                return False
+        return True
+
+    @classmethod
+    def subst_temporaries(cls, func):
+        """Replace the uses of locals that are assigned exactly once to a pure expression over never-reassigned names by that expression
+        (``isDead = e.errno == errno.ESRCH; if isDead:`` reads as ``if e.errno == errno.ESRCH:``).  The assignment itself stays."""
+        counts: Dict[str, int] = {}
+        single: Dict[str, ast.expr] = {}
+        attr_writes = set()
+        for n in walk_local(func):
+            if n is func:
+                continue
+            tg = []
+            if isinstance(n, ast.Assign):
+                tg = n.targets
+            elif isinstance(n, (ast.AugAssign, ast.AnnAssign)):
+                tg = [n.target]
+            elif isinstance(n, (ast.For, ast.AsyncFor)):
+                tg = [n.target]
+            elif isinstance(n, ast.withitem) and n.optional_vars is not None:
+                tg = [n.optional_vars]
+            elif isinstance(n, ast.ExceptHandler) and n.name:
+                counts[n.name] = counts.get(n.name, 0) + 1
+            elif isinstance(n, ast.NamedExpr):
+                tg = [n.target]
+            elif isinstance(n, ast.Delete):
+                tg = n.targets
+            elif isinstance(n, (ast.FunctionDef, ast.AsyncFunctionDef, ast.ClassDef)):
+                counts[n.name] = counts.get(n.name, 0) + 2
+            for t in tg:
+                for e in ast.walk(t):
+                    if isinstance(e, ast.Name):
+                        counts[e.id] = counts.get(e.id, 0) + 1
+                    elif isinstance(e, ast.Attribute) and isinstance(e.ctx, (ast.Store, ast.Del)):
+                        attr_writes.add(e.attr)
+            if isinstance(n, ast.Assign) and len(n.targets) == 1 and isinstance(n.targets[0], ast.Name):
+                single[n.targets[0].id] = n.value
+            elif isinstance(n, ast.AnnAssign) and isinstance(n.target, ast.Name) and n.value is not None:
+                single[n.target.id] = n.value
+            elif isinstance(n, ast.AugAssign) and isinstance(n.target, ast.Attribute):
+                attr_writes.add(n.target.attr)
+        ps = set(params(func)) if hasattr(func, "args") else set()
+        if hasattr(func, "args"):
+            ps |= {a.arg for a in func.args.kwonlyargs} | ({func.args.vararg.arg} if func.args.vararg else set()) | ({func.args.kwarg.arg} if func.args.kwarg else set())
+        local_names = set(counts) | ps
+        # nested functions may rebind through nonlocal: be conservative - any name stored in a nested scope counts as reassigned
+        for n in ast.walk(func):
+            if isinstance(n, ast.Nonlocal):
+                for nm in n.names:
+                    counts[nm] = counts.get(nm, 0) + 2
+        frozen = {n for n in local_names if counts.get(n, 0) <= (0 if n in ps else 1)} | {"True", "False", "None"}
+
+        def is_global(name):
+            return name not in local_names
+        mapping = {}
+        for name, val in single.items():
+            if counts.get(name, 0) != 1 or name in ps:
+                continue
+            names_ok = all(x.id in frozen or is_global(x.id) for x in ast.walk(val) if isinstance(x, ast.Name))
+            if names_ok and cls._pure(val, {x.id for x in ast.walk(val) if isinstance(x, ast.Name)}, attr_writes) and not isinstance(val, (ast.Constant,)) :
+                mapping[name] = val
+            elif names_ok and isinstance(val, ast.Constant) and isinstance(val.value, (str, bytes, int)) and not isinstance(val.value, bool):
+                mapping[name] = val
+        if not mapping:
+            return False
+        # close the mapping under itself (a temporary defined from another temporary)
+        for _ in range(4):
+            for k in list(mapping):
+                mapping[k] = _Rename({m: v for m, v in mapping.items() if m != k}, {}).visit(clone(mapping[k]))
+
+        class T(ast.NodeTransformer):
+            def visit_Name(s_, node):
+                if isinstance(node.ctx, ast.Load) and node.id in mapping:
+                    return ast.copy_location(clone(mapping[node.id]), node)
+                return node
+
+            def visit_FunctionDef(s_, node):
+                return node
+
+            visit_AsyncFunctionDef = visit_Lambda = visit_ClassDef = visit_FunctionDef
+
+        def rewrite(stmts):
+            for st in stmts:
+                if isinstance(st, (ast.FunctionDef, ast.AsyncFunctionDef, ast.ClassDef)):
+                    continue
+                for fld, val in list(ast.iter_fields(st)):
+                    if isinstance(val, ast.expr):
+                        if isinstance(st, (ast.Assign, ast.AnnAssign)) and fld in ("targets", "target"):
+                            continue
+                        setattr(st, fld, T().visit(val))
+                    elif isinstance(val, list) and val and isinstance(val[0], ast.stmt):
+                        rewrite(val)
+                    elif isinstance(val, list) and val and isinstance(val[0], ast.expr) and fld != "targets":
+                        setattr(st, fld, [T().visit(v) for v in val])
+                    elif isinstance(val, list) and val and isinstance(val[0], ast.withitem):
+                        for it in val:
+                            it.context_expr = T().visit(it.context_expr)
+                    elif isinstance(val, list) and val and isinstance(val[0], ast.ExceptHandler):
+                        for h in val:
+                            rewrite(h.body)
+        rewrite(func.body)
+        # a substituted temporary that nobody reads any more: its (pure) assignment is dropped
+        still = {x.id for x in ast.walk(func) if isinstance(x, ast.Name) and isinstance(x.ctx, ast.Load)}
+        dead = {k for k in mapping if k not in still}
+
+        def prune(stmts):
+            out = []
+            for st in stmts:
+                if isinstance(st, ast.Assign) and len(st.targets) == 1 and isinstance(st.targets[0], ast.Name) and st.targets[0].id in dead:
+                    continue
+                if isinstance(st, ast.AnnAssign) and isinstance(st.target, ast.Name) and st.target.id in dead and st.value is not None:
+                    continue
+                if not isinstance(st, (ast.FunctionDef, ast.AsyncFunctionDef, ast.ClassDef)):
+                    for fld in ("body", "orelse", "finalbody"):
+                        v = getattr(st, fld, None)
+                        if isinstance(v, list) and v and isinstance(v[0], ast.stmt):
+                            nv = prune(v)
+                            setattr(st, fld, nv or ([ast.Pass()] if fld == "body" else []))
+                    for h in getattr(st, "handlers", []) or []:
+                        h.body = prune(h.body) or [ast.Pass()]
+                out.append(st)
+            return out
+        if dead:
+            func.body = prune(func.body) or [ast.Pass()]
+        ast.fix_missing_locations(func)
+        return True
+
+    # ---- forward substitution of adjacent single-use temporaries ---------------------------------------------
+    @staticmethod
+    def forward_subst(func):
+        """``t = E`` immediately followed by the only statement that reads ``t`` (and ``t`` is assigned nowhere else): the reader sees ``E`` and
+        the assignment disappears - whatever E is (``exists = os.path.exists(p); if exists:`` reads ``if os.path.exists(p):``)."""
+        loads: Dict[str, int] = {}
+        stores: Dict[str, int] = {}
+        for n in ast.walk(func):
+            if isinstance(n, ast.Name):
+                if isinstance(n.ctx, ast.Load):
+                    loads[n.id] = loads.get(n.id, 0) + 1
+                else:
+                    stores[n.id] = stores.get(n.id, 0) + 1
+            elif isinstance(n, (ast.Nonlocal, ast.Global)):
+                for nm in n.names:
+                    stores[nm] = stores.get(nm, 0) + 2
+        ps = set(params(func)) if hasattr(func, "args") else set()
+        changed = [False]
+
+        def head_exprs(st):
+            """the expressions of ``st`` that are evaluated first, before any nested block"""
+            if isinstance(st, (ast.If, ast.While)):
+                return ["test"]
+            if isinstance(st, (ast.For, ast.AsyncFor)):
+                return ["iter"]
+            if isinstance(st, (ast.Expr, ast.Return, ast.Assign, ast.AnnAssign, ast.AugAssign)):
+                return ["value"]
+            if isinstance(st, ast.Raise):
+                return ["exc"]
+            if isinstance(st, ast.Assert):
+                return ["test"]
+            return []
+
+        def block(stmts):
+            out = []
+            i = 0
+            while i < len(stmts):
+                st = stmts[i]
+                nxt = stmts[i + 1] if i + 1 < len(stmts) else None
+                if isinstance(st, ast.Assign) and len(st.targets) == 1 and isinstance(st.targets[0], ast.Name) and nxt is not None:
+                    t = st.targets[0].id
+                    if stores.get(t, 0) == 1 and loads.get(t, 0) == 1 and t not in ps and not isinstance(st.value, (ast.Lambda, ast.Yield, ast.YieldFrom, ast.Await)):
+                        for fld in head_exprs(nxt):
+                            e = getattr(nxt, fld, None)
+                            if e is not None and any(isinstance(x, ast.Name) and x.id == t and isinstance(x.ctx, ast.Load) for x in walk_local(e)) \
+                                    and not any(isinstance(x, ast.Lambda) for x in ast.walk(e)):
+                                setattr(nxt, fld, _Rename({t: st.value}, {}).visit(e))
+                                ast.fix_missing_locations(nxt)
+                                changed[0] = True
+                                st = None
+                                break
+                if st is not None:
+                    out.append(st)
+                i += 1
+            for st in out:
+                if isinstance(st, (ast.FunctionDef, ast.AsyncFunctionDef, ast.ClassDef)):
+                    continue
+                for fld in ("body", "orelse", "finalbody"):
+                    v = getattr(st, fld, None)
+                    if isinstance(v, list) and v and isinstance(v[0], ast.stmt):
+                        setattr(st, fld, block(v) or [ast.Pass()] if fld == "body" else block(v))
+                for h in getattr(st, "handlers", []) or []:
+                    h.body = block(h.body) or [ast.Pass()]
+            return out
+        for _ in range(3):
+            changed[0] = False
+            func.body = block(func.body) or [ast.Pass()]
+            if not changed[0]:
+                break
+            loads.clear()
+            stores.clear()
+            for n in ast.walk(func):
+                if isinstance(n, ast.Name):
+                    d = loads if isinstance(n.ctx, ast.Load) else stores
+                    d[n.id] = d.get(n.id, 0) + 1
+        ast.fix_missing_locations(func)
+
+    # ---- local closures with a single-expression body ------------------------------------------------------
+    @staticmethod
+    def inline_local_closures(func):
+        """``def f(a): return E`` nested in ``func`` and called there as ``f(x)``: the call reads as E[a := x] (the def stays)."""
+        closures = {}
+        for st in func.body:
+            if isinstance(st, ast.FunctionDef) and not st.decorator_list and not (st.args.vararg or st.args.kwarg or st.args.kwonlyargs or st.args.defaults):
+                body = [b for b in st.body if not (isinstance(b, ast.Expr) and isinstance(b.value, ast.Constant))]
+                if len(body) == 1 and isinstance(body[0], ast.Return) and body[0].value is not None:
+                    closures[st.name] = (st, body[0].value)
+        stores = [x.id for x in walk_local(func) if isinstance(x, ast.Name) and isinstance(x.ctx, ast.Store)]
+        closures = {k: v for k, v in closures.items() if k not in stores}
+        if not closures:
+            return False
+        changed = [False]
+
+        class T(ast.NodeTransformer):
+            def visit_Call(s_, node):
+                s_.generic_visit(node)
+                if isinstance(node.func, ast.Name) and node.func.id in closures and not node.keywords:
+                    d, e = closures[node.func.id]
+                    ps = [a.arg for a in d.args.args]
+                    if len(ps) == len(node.args) and all(_simple_expr(a) for a in node.args):
+                        changed[0] = True
+                        return ast.copy_location(_Rename(dict(zip(ps, node.args)), {}).visit(clone(e)), node)
+                return node
+
+            def visit_FunctionDef(s_, node):
+                return node
+
+            visit_AsyncFunctionDef = visit_ClassDef = visit_FunctionDef
+        func.body = [st if isinstance(st, (ast.FunctionDef, ast.AsyncFunctionDef, ast.ClassDef)) else T().visit(st) for st in func.body]
+        ast.fix_missing_locations(func)
+        return changed[0]
+
+    # ---- module-level constants ------------------------------------------------------------------------
+    @staticmethod
+    def module_constants(tree) -> Dict[str, ast.expr]:
+        """NAME -> literal for module-level names bound exactly once (anywhere in the module) to a str/bytes/int literal or a tuple of such."""
+        def literal(e):
+            if isinstance(e, ast.Constant) and isinstance(e.value, (str, bytes, int)) and not isinstance(e.value, bool):
+                return True
+            return isinstance(e, ast.Tuple) and bool(e.elts) and all(literal(x) for x in e.elts)
+        stores: Dict[str, int] = {}
+        for n in ast.walk(tree):
+            if isinstance(n, ast.Name) and isinstance(n.ctx, (ast.Store, ast.Del)):
+                stores[n.id] = stores.get(n.id, 0) + 1
+            elif isinstance(n, (ast.FunctionDef, ast.AsyncFunctionDef, ast.ClassDef)):
+                stores[n.name] = stores.get(n.name, 0) + 2
+            elif isinstance(n, ast.arg):
+                stores[n.arg] = stores.get(n.arg, 0) + 2
+            elif isinstance(n, ast.alias):
+                nm = (n.asname or n.name).split(".")[0]
+                stores[nm] = stores.get(nm, 0) + 2
+        out = {}
+        for st in tree.body:
+            tgt, val = None, None
+            if isinstance(st, ast.Assign) and len(st.targets) == 1 and isinstance(st.targets[0], ast.Name):
+                tgt, val = st.targets[0].id, st.value
+            elif isinstance(st, ast.AnnAssign) and isinstance(st.target, ast.Name) and st.value is not None:
+                tgt, val = st.target.id, st.value
+            if tgt and stores.get(tgt) == 1 and literal(val) and (tgt.isupper() or tgt.startswith("_")) and tgt != "__all__":
+                out[tgt] = val
+        return out
+
+    # ---- whole module -----------------------------------------------------------------------------------
+    def run(self):
+        """A Module-like object over the normalised tree (``_parent`` links set), or the original module when nothing changed."""
+        tree = clone(self.mod.tree)
+        consts = Normaliser.module_constants(tree)
+        # helpers are looked up in the ORIGINAL definitions (self.methods/functions), expansion happens on the copy
+        def visit(body, owner=None):
+            for st in body:
+                if isinstance(st, (ast.FunctionDef, ast.AsyncFunctionDef)):
+                    q = f"{owner}.{st.name}" if owner else st.name
+                    if self.scope is not None and q not in self.scope and (owner is None or owner not in self.scope):
+                        continue
+                    st.body = self.stmts(st.body, 0)
+                    if consts:
+                        sub_ = _Rename(consts, {})
+                        st.body = [sub_.visit(b) for b in st.body]
+                    st.body = Normaliser.unroll(st.body)
+                    for fn in [x for x in ast.walk(st) if isinstance(x, (ast.FunctionDef, ast.AsyncFunctionDef))]:
+                        Normaliser.inline_local_closures(fn)
+                        Normaliser.subst_temporaries(fn)
+                        Normaliser.forward_subst(fn)
+                elif isinstance(st, ast.ClassDef):
+                    visit(st.body, st.name)
+                elif isinstance(st, (ast.If, ast.Try)):
+                    visit(st.body, owner)
+                    visit(getattr(st, "orelse", []) or [], owner)
+        visit(tree.body)
+        # drop helper definitions that were expanded at every call site and are not referenced as values
+        names = {n for n in self.inlined if n not in self.refused}
+        if names:
+            class Refs(ast.NodeVisitor):
+                def __init__(s):
+                    s.left = set()
+
+                def visit_Attribute(s, n):
+                    if n.attr in names:
+                        s.left.add(n.attr)
+                    s.generic_visit(n)
+
+                def visit_Name(s, n):
+                    if n.id in names:
+                        s.left.add(n.id)
+            r = Refs()
+            r.visit(tree)
+            gone = names - r.left
+
+            def prune(body):
+                keep = []
+                for st in body:
+                    if isinstance(st, ast.FunctionDef) and st.name in gone:
+                        continue
+                    if isinstance(st, ast.ClassDef):
+                        st.body = prune(st.body) or [ast.Pass()]
+                    elif isinstance(st, (ast.If, ast.Try)):
+                        st.body = prune(st.body) or [ast.Pass()]
+                        if getattr(st, "orelse", None):
+                            st.orelse = prune(st.orelse)
+                    keep.append(st)
+                return keep
+            tree.body = prune(tree.body)
+            self.removed = sorted(gone)
+        else:
+            self.removed = []
+        ast.fix_missing_locations(tree)
+        for parent in ast.walk(tree):
+            for child in ast.iter_child_nodes(parent):
+                child._parent = parent  # type: ignore[attr-defined]
+        tree._parent = None  # type: ignore[attr-defined]
+        new = type(self.mod).__new__(type(self.mod))
+        new.__dict__.update(self.mod.__dict__)
+        new.tree = tree
+        return new
+
+
+def normalise(ctx, table: Dict[str, Iterable[str]], scopes: Optional[Dict[str, Iterable[str]]] = None):
+    """Install normalised views of the given modules in ``ctx`` ({module path: names the rules look up, never expanded}).
+    Idempotent per ctx; notes which helpers were read as if inlined."""
+    done = ctx.__dict__.setdefault("_normalised", set())
+    for rel, known in table.items():
+        if rel in done:
+            continue
+        done.add(rel)
+        mod = ctx.mod(rel)
+        n = Normaliser(mod, known, scope=(scopes or {}).get(rel))
+        try:
+            new = n.run()
+        except RecursionError:
+            continue
+        if n.inlined or True:
+            ctx.tree._mods[rel] = new
+        if n.inlined:
+            ctx.note(f"{rel}: private helpers read as if expanded at their call sites: {', '.join(sorted(n.inlined))}"
+                     + (f"; not expandable: {n.refused}" if n.refused else ""))
+
+
+def leaf_values(func, expr, defs=None, depth: int = 6, _seen=frozenset(), _conds=(), _chain=()):
+    """Every expression a value can come from: local names are expanded through EVERY plain definition they have in ``func``,
+    conditional expressions through both arms.  -> [(leaf expr, ((test, arm), ...), (defining assignment statements, ...))]"""
+    if defs is None:
+        defs = local_defs(func, track_mutation=False)
+    if isinstance(expr, ast.IfExp):
+        return leaf_values(func, expr.body, defs, depth, _seen, _conds + ((expr.test, True),), _chain) + \
+            leaf_values(func, expr.orelse, defs, depth, _seen, _conds + ((expr.test, False),), _chain)
+    if isinstance(expr, ast.Name) and depth > 0 and expr.id not in _seen:
+        ds = [d for d in defs.get(expr.id, []) if d is not None]
+        if ds and len(ds) == len(defs.get(expr.id, [])):
+            out = []
+            for d in ds:
+                out += leaf_values(func, d, defs, depth - 1, _seen | {expr.id}, _conds, _chain + (getattr(d, "_parent", None),))
+            return out
+    return [(expr, tuple(_conds), tuple(_chain))]
+
+
+# ---- a very small statement interpreter (for functions that are evaluated instead of shape-matched) --------------
+
+class MiniStop(Exception):
+    """construct outside the interpreter's subset / step budget exhausted (-> AnalysisError of the calling section)"""
+
+
+class _MiniReturn(Exception):
+    def __init__(self, v):
+        self.v = v
+
+
+class _MiniBreak(Exception):
+    pass
+
+
+class _MiniContinue(Exception):
+    pass
+
+
+class _MiniRaise(Exception):
+    def __init__(self, name):
+        Exception.__init__(self, name)
+        self.name = name
+
+
+def mini_call(func, args: Dict[str, object], budget: int = 2000, builtins: Optional[Dict[str, object]] = None):
+    """Interpret ``func`` (assignments, if/while/for, try/except <Name>, return/break/continue, calls of the given builtins and of methods
+    of the Python objects handed in) on concrete or symbolic arguments.  Nothing of the repository is executed by CPython."""
+    env = dict(args)
+    bi = {"iter": iter, "next": next, "len": len, "list": list, "tuple": tuple, "reversed": reversed, "range": range, "enumerate": enumerate,
+          "isinstance": isinstance, "str": str, "bytes": bytes, "True": True, "False": False, "None": None}
+    bi.update(builtins or {})
+    steps = [0]
+
+    def tick():
+        steps[0] += 1
+        if steps[0] > budget:
+            raise MiniStop("step budget exhausted")
+
+    def ev(e):
+        tick()
+        if isinstance(e, ast.Constant):
+            return e.value
+        if isinstance(e, ast.Name):
+            if e.id in env:
+                return env[e.id]
+            if e.id in bi:
+                return bi[e.id]
+            raise MiniStop(f"unknown name {e.id}")
+        if isinstance(e, ast.Attribute):
+            v = ev(e.value)
+            if isinstance(v, (str, bytes, list, tuple, dict)) or getattr(v, "_mini_symbolic", False):
+                try:
+                    return getattr(v, e.attr)
+                except AttributeError:
+                    raise MiniStop(f"attribute {e.attr}")
+            raise MiniStop(f"attribute access on {type(v).__name__}")
+        if isinstance(e, ast.Call):
+            if e.keywords and any(k.arg is None for k in e.keywords):
+                raise MiniStop("**kwargs")
+            fn = ev(e.func)
+            a = [ev(x) for x in e.args]
+            kw = {k.arg: ev(k.value) for k in e.keywords}
+            try:
+                return fn(*a, **kw)
+            except StopIteration:
+                raise _MiniRaise("StopIteration")
+            except (IndexError, KeyError, ValueError, TypeError) as ex:
+                raise _MiniRaise(type(ex).__name__)
+        if isinstance(e, (ast.Tuple, ast.List)):
+            vals = [ev(x) for x in e.elts]
+            return tuple(vals) if isinstance(e, ast.Tuple) else vals
+        if isinstance(e, ast.UnaryOp) and isinstance(e.op, ast.Not):
+            return not ev(e.operand)
+        if isinstance(e, ast.BoolOp):
+            v = None
+            for x in e.values:
+                v = ev(x)
+                if isinstance(e.op, ast.And) and not v:
+                    return v
+                if isinstance(e.op, ast.Or) and v:
+                    return v
+            return v
+        if isinstance(e, ast.Compare) and len(e.ops) == 1:
+            a, b = ev(e.left), ev(e.comparators[0])
+            op = type(e.ops[0])
+            table = {ast.Eq: lambda: a == b, ast.NotEq: lambda: a != b, ast.Is: lambda: a is b, ast.IsNot: lambda: a is not b, ast.In: lambda: a in b,
+                     ast.NotIn: lambda: a not in b, ast.Lt: lambda: a < b, ast.LtE: lambda: a <= b, ast.Gt: lambda: a > b, ast.GtE: lambda: a >= b}
+            return table[op]()
+        if isinstance(e, ast.Subscript):
+            v = ev(e.value)
+            if isinstance(e.slice, ast.Slice):
+                lo = ev(e.slice.lower) if e.slice.lower else None
+                hi = ev(e.slice.upper) if e.slice.upper else None
+                return v[lo:hi]
+            try:
+                return v[ev(e.slice)]
+            except (IndexError, KeyError) as ex:
+                raise _MiniRaise(type(ex).__name__)
+        if isinstance(e, ast.BinOp) and isinstance(e.op, (ast.Add, ast.Sub)):
+            a, b = ev(e.left), ev(e.right)
+            return a + b if isinstance(e.op, ast.Add) else a - b
+        if isinstance(e, ast.IfExp):
+            return ev(e.body) if ev(e.test) else ev(e.orelse)
+        raise MiniStop(f"expression {type(e).__name__}")
+
+    def assign(t, v):
+        if isinstance(t, ast.Name):
+            env[t.id] = v
+        elif isinstance(t, (ast.Tuple, ast.List)):
+            vs = list(v)
+            if len(vs) != len(t.elts):
+                raise _MiniRaise("ValueError")
+            for x, y in zip(t.elts, vs):
+                assign(x, y)
+        else:
+            raise MiniStop("assignment target")
+
+    def run(stmts):
+        for st in stmts:
+            tick()
+            if isinstance(st, ast.Expr):
+                if not isinstance(st.value, ast.Constant):
+                    ev(st.value)
+            elif isinstance(st, ast.Assign):
+                v = ev(st.value)
+                for t in st.targets:
+                    assign(t, v)
+            elif isinstance(st, ast.AnnAssign):
+                if st.value is not None:
+                    assign(st.target, ev(st.value))
+            elif isinstance(st, ast.Return):
+                raise _MiniReturn(ev(st.value) if st.value is not None else None)
+            elif isinstance(st, ast.If):
+                run(st.body if ev(st.test) else st.orelse)
+            elif isinstance(st, ast.While):
+                while ev(st.test):
+                    try:
+                        run(st.body)
+                    except _MiniBreak:
+                        break
+                    except _MiniContinue:
+                        continue
+                else:
+                    run(st.orelse)
+            elif isinstance(st, ast.For):
+                broke = False
+                for v in ev(st.iter):
+                    assign(st.target, v)
+                    try:
+                        run(st.body)
+                    except _MiniBreak:
+                        broke = True
+                        break
+                    except _MiniContinue:
+                        continue
+                if not broke:
+                    run(st.orelse)
+            elif isinstance(st, ast.Try):
+                try:
+                    try:
+                        run(st.body)
+                    except _MiniRaise as r:
+                        for h in st.handlers:
+                            names = [] if h.type is None else [dotted(x) for x in (h.type.elts if isinstance(h.type, ast.Tuple) else [h.type])]
+                            if h.type is None or r.name in names or "Exception" in names or "BaseException" in names or \
+                                    (r.name in ("IndexError", "KeyError") and "LookupError" in names):
+                                run(h.body)
+                                break
+                        else:
+                            raise
+                    else:
+                        run(st.orelse)
+                finally:
+                    run(st.finalbody)
+            elif isinstance(st, ast.Break):
+                raise _MiniBreak()
+            elif isinstance(st, ast.Continue):
+                raise _MiniContinue()
+            elif isinstance(st, ast.Pass):
+                pass
+            elif isinstance(st, ast.Raise):
+                raise _MiniRaise(dotted(st.exc.func if isinstance(st.exc, ast.Call) else st.exc) if st.exc is not None else "reraise")
+            else:
+                raise MiniStop(f"statement {type(st).__name__}")
+    try:
+        run([s for s in func.body])
+    except _MiniReturn as r:
+        return r.v
+    return None
